@@ -16,7 +16,7 @@ type C05 struct{}
 
 func (C05) ID() string { return "C05" }
 func (C05) Rule() string {
-	return "lines `build ls <entries>` (hook buildRootsLeaves, compression none, exact bytes vs model), `optcheck ic budget <entries> C <certificate>` (hook optimizeDirectories on lists of 0, 1, 16383, 16384, 16385, 4096k±1 … 3e5 (thorough 2e6) entries from regular to incompressible; the decoded root, leaf lengths and decoded leaves are the certificate the model checks against the OptResult relation) and `finroot seed n` (real finalize() on incompressible entry lists tuned by bisection so the gzip root lands in the 127-byte window below/above the budget); `f32mul bits` / `f32init n` / `f32sched n ls` (the float32 leaf-size schedule: Go's `x *= 1.2`, `int(x)` and clamped initial value against the bit-exact model, and whether the leaf size the real loop settled on is a member of the modelled schedule — recorded, not a verdict); non-trivial = at least 2 leaves or a root within 200 bytes of the budget; distinct by hash of the line"
+	return "lines `build ls <entries>` (hook buildRootsLeaves, compression none, exact bytes vs model), `optcheck ic budget <entries> C <certificate>` (hook optimizeDirectories on lists of 0, 1, 16383, 16384, 16385, 4096k±1 … 3e5 (thorough 2e6) entries from regular to incompressible; the decoded root, leaf lengths and decoded leaves are the certificate the model checks against the OptResult relation) and `finroot seed n` (real finalize() on incompressible entry lists tuned by bisection so the gzip root lands in the 127-byte window below/above the budget); `f32mul bits` / `f32init n` / `f32member n ls` / `f32sched n ls` (the float32 leaf-size schedule: Go's `x *= 1.2`, `int(x)` and clamped initial value against the bit-exact model, and whether the leaf size the real loop settled on is a member of the modelled schedule — recorded, not a verdict); non-trivial = at least 2 leaves or a root within 200 bytes of the budget; distinct by hash of the line"
 }
 
 // ascending tile entries; style 0 = regular/compressible, 1 = incompressible (random deltas, lengths, scattered offsets)
@@ -64,11 +64,22 @@ func decodeDirBytes(b []byte, ic pmtiles.Compression) ([]pmtiles.EntryV3, bool) 
 // certificate of an optimizeDirectories result: rootLen, decoded root, per-leaf (byte length, decoded entries)
 // lastSched: entry count, number of leaves and length of the first leaf of the latest optimizeDirectories run
 // (the leaf size the real loop settled on, when there are at least two leaves)
-var lastSched [3]int
+type schedObs [3]int
 
 func optCertificate(es []pmtiles.EntryV3, budget int, ic pmtiles.Compression) (string, string) {
+	c, bad, _ := optCertificateObs(es, budget, ic)
+	return c, bad
+}
+
+func optCertificateObs(es []pmtiles.EntryV3, budget int, ic pmtiles.Compression) (string, string, schedObs) {
+	var obs schedObs
+	c, bad := optCertificateInto(es, budget, ic, &obs)
+	return c, bad, obs
+}
+
+func optCertificateInto(es []pmtiles.EntryV3, budget int, ic pmtiles.Compression, lastSched *schedObs) (string, string) {
 	root, leaves, n := pmtiles.VerifOptimizeDirectories(es, budget, ic)
-	lastSched = [3]int{len(es), n, 0}
+	*lastSched = schedObs{len(es), n, 0}
 	rootEntries, ok := decodeDirBytes(root, ic)
 	if !ok {
 		return "", "root does not decode"
@@ -104,7 +115,7 @@ func optCertificate(es []pmtiles.EntryV3, budget int, ic pmtiles.Compression) (s
 
 // f32Lines: the leaf size the real loop used (first of at least two leaves) against the bit-exact float32
 // schedule of the model, and the arithmetic of one growth step on the values around it
-func f32Lines(emit func(string)) {
+func f32Lines(emit func(string), lastSched schedObs) {
 	if lastSched[1] >= 2 && lastSched[2] > 0 {
 		emit(fmt.Sprintf("f32sched %d %d", lastSched[0], lastSched[2]))
 	}
@@ -113,9 +124,6 @@ func f32Lines(emit func(string)) {
 // goSchedule: is ls a member of 4096, int(4096*1.2), … in Go's own float32 arithmetic (the expression of
 // optimizeDirectories, re-evaluated here: this side of the line ties the MODEL's arithmetic to the compiler's)
 func goSchedule(n, ls int) string {
-	if n >= 14336000 {
-		return "unmodelled"
-	}
 	var leafSize float32
 	leafSize = float32(n) / 3500
 	if leafSize < 4096 {
@@ -220,16 +228,35 @@ func (C05) Gen(r *core.Rng, tier string, emit func(string)) {
 			if r.Chance(1, 4) {
 				b = 200 + r.Intn(4000) // small budgets force the growth loop through several rounds
 			}
-			cert, bad := optCertificate(es, b, ic)
+			cert, bad, obs := optCertificateObs(es, b, ic)
 			if bad != "" {
 				cert = "0 0 0 # " + strings.ReplaceAll(bad, " ", "_")
 			}
 			emit(fmt.Sprintf("optcheck %s %d %s C %s", compName(ic), b, fmtEntries(es), cert))
-			f32Lines(emit)
+			f32Lines(emit, obs)
 		}
 	}
-	for _, n := range []int{0, 1, 3500, 16384, 4096 * 3500 / 2, 14335999, 14335998, 14335744, 14336000, 1 << 24, 1<<24 + 1, r.Intn(14336000), r.Intn(14336000)} {
+	for _, n := range []int{0, 1, 3500, 16384, 4096 * 3500 / 2, 14335999, 14335998, 14335744, 14336000, 14336001, 14337750, 1 << 24, 1<<24 + 1, 1<<24 + 3, 3500 << 24, 3500<<24 + 1750, 1<<40 + 1<<16, 1<<62 - 1, r.Intn(14336000), r.Intn(14336000)} {
 		emit(fmt.Sprintf("f32init %d", n))
+	}
+	for i := 0; i < 200; i++ {
+		// entry counts from 2^23 to 2^50 with few or many significant bits: both roundings (int→float32, /3500) at work
+		n := int(r.U64()%(1<<27)) << uint(r.Intn(24))
+		if i%3 == 0 {
+			n = int(r.U64() % (1 << uint(24+r.Intn(26))))
+		}
+		emit(fmt.Sprintf("f32init %d", n))
+		if i%10 == 0 {
+			x := float32(n) / 3500
+			if x < 4096 {
+				x = 4096
+			}
+			for k := r.Intn(6); k > 0; k-- {
+				x *= 1.2
+			}
+			emit(fmt.Sprintf("f32member %d %d", n, int(x)))
+			emit(fmt.Sprintf("f32member %d %d", n, int(x)+1))
+		}
 	}
 	// one growth step on arbitrary float32 values from 4096 up to 2^63 (mantissas random, all-ones, ties)
 	for i := 0; i < 400; i++ {
@@ -260,12 +287,12 @@ func (C05) Gen(r *core.Rng, tier string, emit func(string)) {
 			b = 40 + r.Intn(80)
 		}
 		es := tileEntries(r, n, 1)
-		cert, bad := optCertificate(es, b, ic)
+		cert, bad, obs := optCertificateObs(es, b, ic)
 		if bad != "" {
 			cert = "0 0 0 # " + strings.ReplaceAll(bad, " ", "_")
 		}
 		emit(fmt.Sprintf("optcheck %s %d %s C %s", compName(ic), b, fmtEntries(es), cert))
-		f32Lines(emit)
+		f32Lines(emit, obs)
 	}
 	// short lists of FAT entries (sparse IDs, scattered offsets, long lengths: well over 8 bytes each, and nothing
 	// for gzip to find): whether a list fits the root is a matter of its bytes, not of its length
@@ -350,16 +377,13 @@ func (C05) RunGo(line string) string {
 		y := x
 		y *= 1.2
 		return fmt.Sprintf("%d %d", math.Float32bits(y), int64(x))
-	case "f32sched":
+	case "f32sched", "f32member":
 		n, _ := strconv.Atoi(t[1])
 		ls, _ := strconv.Atoi(t[2])
 		return goSchedule(n, ls)
 	case "f32init":
-		// the initial leaf size after the clamp: exactly 4096 for every list of fewer than 4096*3500 entries
+		// the initial leaf size after the clamp: float32(n)/3500, two roundings, at least 4096
 		n, _ := strconv.Atoi(t[1])
-		if n >= 14336000 {
-			return "unmodelled"
-		}
 		var leafSize float32
 		leafSize = float32(n) / 3500
 		if leafSize < 4096 {
@@ -499,7 +523,10 @@ func (C05) Branch(line, goOut string) string {
 	case "finroot", "finrootx":
 		return t[0] + " " + strings.SplitN(goOut, " ", 2)[0]
 	case "f32sched":
-		return "f32sched: leaf size of the real loop " + goOut + " the modelled float32 schedule"
+		if goOut != "on" {
+			return "f32sched: leaf size of the real loop " + goOut + " the modelled float32 schedule (" + line + ")"
+		}
+		return "f32sched: leaf size of the real loop on the modelled float32 schedule"
 	}
 	return t[0]
 }
